@@ -86,6 +86,16 @@ func (ec *ErrorCause) croppedJSON() []byte {
 		return nil
 	}
 
+	if len(validErrorCauseJSON) > MaxErrorCauseSizeBytes {
+		// JSON escaping can expand a byte to up to 6 bytes: crop Message &
+		// WorkingDir so that the document fits even in that case
+		compactor.cropEscaped()
+		validErrorCauseJSON, err = json.Marshal(compactor.cause())
+		if err != nil {
+			return nil
+		}
+	}
+
 	return validErrorCauseJSON
 }
 
